@@ -3,6 +3,26 @@ import ctypes, os
 from ctypes import byref, c_uint16, c_int32, c_int16
 from ops_common import *
 
+import shutil, uuid
+
+
+def snap(c):
+    """C02: keep a copy of every file the library has just closed (when a snapshot directory is set)"""
+    sd = os.environ.get("H4V_SNAPDIR")
+    if not sd:
+        return
+    n = c.v.get("snapn", 0)
+    if n >= int(os.environ.get("H4V_SNAPMAX", "3")):
+        return
+    c.v["snapn"] = n + 1
+    dst = os.path.join(sd, uuid.uuid4().hex[:12])
+    os.makedirs(dst, exist_ok=True)
+    for fn in os.listdir(c.dir):
+        p = os.path.join(c.dir, fn)
+        if os.path.isfile(p):
+            shutil.copy(p, os.path.join(dst, fn))
+
+
 # ------------------------------------------------------------------ HDir (C12)
 
 def payload(tag, ref, n):
@@ -12,7 +32,8 @@ def payload(tag, ref, n):
 @teardown("HDir")
 def hd_teardown(c):
     if c.h.get("F", FAIL) != FAIL:
-        c.L.Hclose(c.h["F"])
+        if c.L.Hclose(c.h["F"]) != FAIL:
+            snap(c)
 
 
 @op("HDir", "Create")
@@ -123,6 +144,7 @@ def hd_reopen(c, a):
     r = c.L.Hclose(c.h["F"])
     if r == FAIL:
         return {"ret": FAIL, "list": []}
+    snap(c)
     fid = c.L.Hopen(c.path(), DFACC_RDWR, 0)
     c.h["F"] = fid
     if fid == FAIL:
@@ -180,7 +202,8 @@ def he_teardown(c):
     for k in [k for k in c.h if k != "F"]:
         c.L.Hendaccess(c.h[k])
     if c.h.get("F", FAIL) != FAIL:
-        c.L.Hclose(c.h["F"])
+        if c.L.Hclose(c.h["F"]) != FAIL:
+            snap(c)
 
 
 @op("HElem", "Create")
@@ -328,6 +351,7 @@ def he_reopen(c, a):
     r = c.L.Hclose(c.h["F"])
     if r == FAIL:
         return {"ret": FAIL}
+    snap(c)
     fid = c.L.Hopen(c.path(), DFACC_RDWR, 0)
     c.h["F"] = fid
     if fid == FAIL:
